@@ -111,6 +111,30 @@ impl<'a, D: DependencyProvider> Encoder<'a, D> {
 
     /// Called when the result of a future is available.
     fn on_task_result(&mut self, result: TaskResult<'a>) {
+        #[cfg(feature = "verif-hooks")]
+        {
+            use crate::verif::VerifTask;
+            let id = |s: SolvableOrRootId| s.solvable().map_or(u32::MAX, |s| s.to_usize() as u32);
+            let task = match &result {
+                TaskResult::Dependencies(d) => VerifTask::Dependencies(id(d.solvable_id)),
+                TaskResult::Candidates(c) => VerifTask::Candidates(c.name_id.to_usize() as u32),
+                TaskResult::RequirementCandidates(r) => match r.requirement {
+                    Requirement::Single(v) => {
+                        VerifTask::RequirementSingle(id(r.solvable_id), v.to_usize() as u32)
+                    }
+                    Requirement::Union(u) => {
+                        VerifTask::RequirementUnion(id(r.solvable_id), u.to_usize() as u32)
+                    }
+                },
+                TaskResult::ConstraintCandidates(c) => {
+                    VerifTask::Constraint(id(c.solvable_id), c.constraint.to_usize() as u32)
+                }
+            };
+            self.state
+                .decision_tracker
+                .verif_events
+                .push(crate::verif::VerifEvent::TaskDone(task));
+        }
         match result {
             TaskResult::Dependencies(dependencies) => self.on_dependencies_available(dependencies),
             TaskResult::Candidates(candidates) => self.on_candidates_available(candidates),
